@@ -48,6 +48,29 @@ func (markerCodec) Append(data []byte, ptr unsafe.Pointer, tag []byte) []byte {
 	return append(data, byte(v), byte(v>>8), byte(v>>16), byte(v>>24))
 }
 
+// refCodec is registered for (abs.RefNode, "rf"): a node stands for itself by its ID, a little-endian fixed32.
+type refCodec struct{}
+
+func (refCodec) Omit(ptr unsafe.Pointer) bool { return (*abs.RefNode)(ptr).ID == 0 }
+func (refCodec) Read(data []byte, ptr unsafe.Pointer, wt plenccore.WireType) (int, error) {
+	if len(data) < 4 {
+		return 0, fmt.Errorf("ref: short data")
+	}
+	(*abs.RefNode)(ptr).ID = int32(uint32(data[0]) | uint32(data[1])<<8 | uint32(data[2])<<16 | uint32(data[3])<<24)
+	return 4, nil
+}
+func (refCodec) New() unsafe.Pointer          { return unsafe.Pointer(new(abs.RefNode)) }
+func (refCodec) WireType() plenccore.WireType { return plenccore.WT32 }
+func (refCodec) Descriptor() plenccodec.Descriptor {
+	return plenccodec.Descriptor{Type: plenccodec.FieldTypeInt}
+}
+func (refCodec) Size(ptr unsafe.Pointer, tag []byte) int { return 4 + len(tag) }
+func (refCodec) Append(data []byte, ptr unsafe.Pointer, tag []byte) []byte {
+	v := uint32((*abs.RefNode)(ptr).ID)
+	data = append(data, tag...)
+	return append(data, byte(v), byte(v>>8), byte(v>>16), byte(v>>24))
+}
+
 type Cfg struct {
 	ProtoTime   bool   `json:"protoTime"`
 	ProtoArrays bool   `json:"protoArrays"`
@@ -72,6 +95,9 @@ func newInstance(c Cfg) *plenc.Plenc {
 	}
 	if c.Marker == "plain" || c.Marker == "both" {
 		p.RegisterCodec(reflect.TypeOf(abs.Marked(0)), markerCodec{})
+	}
+	if c.Marker == "rf" {
+		p.RegisterCodecWithTag(reflect.TypeOf(abs.RefNode{}), "rf", refCodec{})
 	}
 	if c.Marker == "kind" {
 		p.RegisterCodec(reflect.TypeOf(int32(0)), markerCodec{})
